@@ -1,7 +1,9 @@
 #!/bin/bash
-# usage: twin_scratch.sh <twin-or-seed-id> [prop ...]  -> scratch copy of /repo with the patch applied under /tmp/tw/<id>; runs the given checks on it
+# usage: twin_scratch.sh <twin-or-seed-id> [prop ...]  -> scratch copy of /repo with the patch applied under /tmp/tw/<checker dir name>/<id>; runs the given checks on it
 id=$1; shift
-d=/tmp/tw/$id
+here="$(cd "$(dirname "$0")/.." && pwd)"
+d=/tmp/tw/$(basename "$here")/$id
+echo "scratch tree: $d"
 rm -rf $d; mkdir -p $d
 cp -r /repo/clastic $d/clastic
 find $d -name __pycache__ -prune -exec rm -rf {} \; 2>/dev/null
